@@ -119,19 +119,22 @@ def isDigit (c : Char) : Bool := '0' ≤ c && c ≤ '9'
 /-- value of a digit string, most significant first -/
 def digitsVal (ds : List Char) : Nat := ds.foldl (fun a c => a * 10 + (c.toNat - '0'.toNat)) 0
 
-/-- `strconv.Atoi(s)`: optional sign, one or more ASCII digits.  Syntax error: (0, err).
-    Out of the int64 range: (the nearest bound, err), as strconv does.  (Go also accepts nothing
-    else: no underscores, no base prefixes — Atoi is base 10.) -/
-def atoi (s : String) : Int × Error :=
-  let (neg, ds) := match s.toList with
-    | '-' :: r => (true, r)
-    | '+' :: r => (false, r)
-    | r => (false, r)
+/-- the digits of `strconv.Atoi` behind the optional sign -/
+def atoiDigits (neg : Bool) (ds : List Char) : Int × Error :=
   if ds.isEmpty || !ds.all isDigit then (0, some ())
   else
     let n := digitsVal ds
     if neg then (if n ≤ 9223372036854775808 then (-(n : Int), none) else (-9223372036854775808, some ()))
     else (if n < 9223372036854775808 then ((n : Int), none) else (9223372036854775807, some ()))
+
+/-- `strconv.Atoi(s)`: optional sign, one or more ASCII digits.  Syntax error: (0, err).
+    Out of the int64 range: (the nearest bound, err), as strconv does.  (Go also accepts nothing
+    else: no underscores, no base prefixes — Atoi is base 10.) -/
+def atoi (s : String) : Int × Error :=
+  match s.toList with
+  | '-' :: ds => atoiDigits true ds
+  | '+' :: ds => atoiDigits false ds
+  | ds => atoiDigits false ds
 
 /-! ## regular expressions: exactly the pattern texts that occur in translated functions -/
 
